@@ -1,7 +1,7 @@
 (* C09 - Incentive gauges pay pro-rata, on schedule, and never more than they hold.
    Property theorems only; each is closed by a lemma of C09/Proofs*.v.
    Model: C09/Model.v (lock-based ByDuration gauges, and external NoLock gauges in their minimal form: per-epoch amount
-   floor(remaining / remaining epochs) handed to the pool, zero amounts rejected; group, internal NoLock and
+   floor(remaining / remaining epochs) handed to the pool, zero per-epoch amounts skipped; group, internal NoLock and
    synthetic-lock gauges are out of scope).
    Standing assumption on the chain configuration: [cfg_ok cfg] - every lockable duration exceeds the 1 ms that
    getDistributeToBaseLocks uses as its cache query (true of every deployed configuration: 1 s, 1 h, 3 h, 7 h, ...).
@@ -219,32 +219,28 @@ Theorem C09_epoch_succeeds_refuted : ~ C09_epoch_succeeds_full.
 Proof. exact epoch_succeeds_full_refuted. Qed.
 Print Assumptions C09_epoch_succeeds_refuted.
 
-(* ... and it is still FALSE when no quote fails: finding C09-F5, a NoLock gauge whose remaining coin is smaller than
-   its remaining epochs (2 uosmo over 3 epochs) makes the epoch end fail; user 1 is owed 5*10^8 by the lock gauge *)
-Definition C09_epoch_succeeds_without_quote_error_full : Prop :=
-  forall cfg funds ops thr, cfg_ok cfg -> thr_no_error thr ->
-  exists s', after_epoch_end cfg thr (run cfg (init_state funds) ops) = Ok s'.
-
-Theorem C09_epoch_aborted_by_nolock_gauge_witness :
-  after_epoch_end w_cfg w_thr w5_pre = Err E_EPOCH /\ ideal_credit w_cfg w_thr w5_pre 1 0 = 500000000 /\
-  map g_filled (s_gauges w5_pre) = [1; 0] /\ refs_all (s_act w5_pre) = [1] /\ refs_all (s_up w5_pre) = [2].
-Proof. exact witness_F5. Qed.
-Print Assumptions C09_epoch_aborted_by_nolock_gauge_witness.
-
-Theorem C09_epoch_succeeds_without_quote_error_refuted : ~ C09_epoch_succeeds_without_quote_error_full.
-Proof. exact epoch_succeeds_without_quote_error_refuted. Qed.
-Print Assumptions C09_epoch_succeeds_without_quote_error_refuted.
-
-(* PROVED PART, and exact characterisation of C09-F3 and C09-F5: these two are the ONLY ways an epoch end can fail.
-   If no min-value quote returns an error and every NoLock gauge that takes part has, for each remaining coin, at least
-   as many units as remaining epochs ([nolock_ok]), AfterEpochEnd succeeds after every history (no Coins.Sub panic, no
-   failing send, no inconsistent reference list, no "gauge is not active") *)
+(* PROVED PART, and exact characterisation of C09-F3: an error of the injected min-value quote is the ONLY way an epoch
+   end can fail. Without one, AfterEpochEnd succeeds after every history - lock gauges and NoLock gauges alike (no
+   Coins.Sub panic, no failing send, no inconsistent reference list, no "gauge is not active", and - since /repo commit
+   5be8fedaa6 - no rejected zero-amount incentive: finding C09-F5 is fixed) *)
 Theorem C09_epoch_succeeds_partial : forall cfg funds ops thr, cfg_ok cfg -> thr_no_error thr ->
-  let s := run cfg (init_state funds) ops in
-  (forall g, takes_part s g -> nolock_ok g) ->
-  exists s', after_epoch_end cfg thr s = Ok s'.
+  exists s', after_epoch_end cfg thr (run cfg (init_state funds) ops) = Ok s'.
 Proof. exact epoch_fails_only_by_quote_error. Qed.
 Print Assumptions C09_epoch_succeeds_partial.
+
+(* regression witness of the fixed finding C09-F5: next to a NoLock gauge of 2 uosmo over 3 epochs (per-epoch amount 0)
+   the epoch end succeeds, user 1 is paid the 5*10^8 the lock gauge owes, the NoLock gauge counts the epoch, hands out
+   nothing now and 1 uosmo at each of the next two epoch ends, and finishes with 3 of 3 *)
+Theorem C09_nolock_zero_amount_skipped :
+  is_ok (after_epoch_end w_cfg w_thr w5_pre) = true /\
+  s_bank (epoch_of w_cfg w_thr w5_pre) 1 0 - s_bank w5_pre 1 0 = 500000000 /\
+  ideal_credit w_cfg w_thr w5_pre 1 0 = 500000000 /\
+  map (fun g => (amount_of (g_dist g) 0, g_filled g)) (s_gauges (epoch_of w_cfg w_thr w5_pre)) = [(10 ^ 9, 2); (0, 1)] /\
+  refs_all (s_fin (epoch_of w_cfg w_thr w5_pre)) = [1] /\ refs_all (s_act (epoch_of w_cfg w_thr w5_pre)) = [2] /\
+  map (fun g => (amount_of (g_dist g) 0, g_filled g)) (s_gauges w5_end) = [(10 ^ 9, 2); (2, 3)] /\
+  refs_all (s_fin w5_end) = [1; 2] /\ s_bank w5_end MODULE 0 = 0 /\ s_bank w5_end (pool_addr 1) 0 - w_funds (pool_addr 1) 0 = 2.
+Proof. exact regression_F5. Qed.
+Print Assumptions C09_nolock_zero_amount_skipped.
 
 (* ---- non-vacuity (the concrete histories nv_ops, nv2_ops are defined in C09/Proofs.v) *)
 (* a history that meets the hypothesis of the conditional finishing theorem, on which the gauge really pays twice and
@@ -269,10 +265,9 @@ Example C09_share_nonvacuous :
   ideal_credit w_cfg w_thr nv2_pre 1 0 = 1250000000 /\ ideal_credit w_cfg w_thr nv2_pre 2 0 = 3750000000.
 Proof. exact nonvacuous_share. Qed.
 
-(* a reachable state with a NoLock gauge that meets the hypothesis [nolock_ok] of the liveness theorem: the epoch end
-   succeeds and floor(10/3) = 3 uosmo move from the module account to the pool's incentives address *)
+(* a reachable state in which a NoLock gauge takes part: the epoch end succeeds and floor(10/3) = 3 uosmo move from the
+   module account to the pool's incentives address *)
 Example C09_nolock_nonvacuous :
-  (forall g, takes_part nv3_pre g -> nolock_ok g) /\
   (exists g, takes_part nv3_pre g /\ g_pool g = 1) /\
   after_epoch_end w_cfg w_thr nv3_pre = Ok (epoch_of w_cfg w_thr nv3_pre) /\
   s_bank nv3_pre MODULE 0 = 10 /\ s_bank (epoch_of w_cfg w_thr nv3_pre) MODULE 0 = 7 /\
